@@ -168,6 +168,10 @@ PayloadOrderOut(d, dc, hid) ==
   IF dc.hasx /\ dc.vins # << >> THEN AnyOrder
   ELSE Bogus(d, dc, AnchoredOrder(d, [dc EXCEPT !.order.type = "payload"], hid))
 
+DerivedIdxs(d, ord) ==
+  Exact(SelectSeq([i \in 1..Len(ord) |-> i - 1],
+                  LAMBDA i : ord[i + 1] > 0 /\ IsDerivedPos(d, ord[i + 1])))
+
 C07_2D(tk) ==
   [ payload_order       |-> PayloadOrderOut(DimR, RowDC, RowHid(tk)),
     row_order_signed    |-> Exact(SignedIndexes(DimR, RowDC, RowOrder(tk))),
@@ -179,6 +183,8 @@ C07_2D(tk) ==
     shape               |-> Exact(<<Len(RowOrder(tk)), Len(ColOrder(tk))>>),
     inserted_row_idxs    |-> IdxWhere(RE(tk), IsIns),
     inserted_column_idxs |-> IdxWhere(CE(tk), IsIns),
+    derived_row_idxs     |-> DerivedIdxs(DimR, RowOrder(tk)),
+    derived_column_idxs  |-> DerivedIdxs(DimC, ColOrder(tk)),
     is_empty            |-> Exact(Len(RowOrder(tk)) = 0 \/ Len(ColOrder(tk)) = 0) ]
 C07_1D(tk) ==
   [ payload_order    |-> PayloadOrderOut(DimR, RowDC, RowHid(tk)),
